@@ -32,9 +32,9 @@ def rules_for(prop):
         run.__name__ = getattr(rule, "__name__", "rule")
         return run
 
-    def plumbing(*rels):
-        """SUB-3 / GEN-3 on the modules a property is about"""
-        return [scoped(sub.rule_sub3, rels), scoped(sub.rule_gen3, rels), scoped(sub.rule_cfg1, rels)]
+    def plumbing(*rels, user_results=True):
+        """SUB-3 / GEN-3 / CFG-1 on the modules a property is about"""
+        return [scoped(sub.rule_sub3, rels), scoped(sub.rule_gen3, rels), scoped(sub.rule_cfg1 if user_results else sub.rule_cfg1_timing, rels)]
     SEQ = ("rxsci/operators/first.py", "rxsci/operators/last.py", "rxsci/operators/take.py", "rxsci/operators/distinct.py",
            "rxsci/operators/distinct_until_changed.py", "rxsci/data/lag.py", "rxsci/data/pad.py", "rxsci/operators/start_with.py",
            "rxsci/data/batch.py", "rxsci/data/sort.py", "rxsci/data/to_deque.py", "rxsci/data/to_list.py", "rxsci/operators/scan.py")
@@ -43,9 +43,9 @@ def rules_for(prop):
     CODEC = ("rxsci/data/codec.py",)
     FILEIO = ("rxsci/io/file.py",)
     table = {
-        "C01": per_subscription() + [mx.rule_ev1, ag.rule_ag1, ag.rule_ag2, ag.rule_ag3_small, ag.rule_ag3_map_filter, ag.rule_ag3_do_action, scan.rule_sc1, scan.rule_sd2, tm.rule_tm4, st.rule_st5, seq.rule_fw2, ms.rule_ms, ms.rule_tp1],
-        "C02": st.RULES + [ms.rule_tp1, ms.rule_ms, tm.rule_tm5, scan.rule_sd1, mx.rule_mx6],
-        "C03": mx.RULES + [st.rule_st8, ms.rule_ms, ms.rule_tp1, sub.rule_sub3],
+        "C01": per_subscription() + [mx.rule_ev1, ag.rule_ag1, ag.rule_ag2, ag.rule_ag3_small, ag.rule_ag3_map_filter, ag.rule_ag3_do_action, scan.rule_sc1, scan.rule_sd2, tm.rule_tm4, st.rule_st5, seq.rule_fw2, ms.rule_ms, ms.rule_ms6, ms.rule_tp1],
+        "C02": st.RULES + [ms.rule_tp1, ms.rule_ms, ms.rule_ms6, tm.rule_tm5, scan.rule_sd1, mx.rule_mx6],
+        "C03": mx.RULES + [st.rule_st8, ms.rule_ms, ms.rule_ms6, ms.rule_tp1, sub.rule_sub3],
         "C04": [named(grp.rule_fwd1, heads=("group_by",)), named(grp.rule_eq1, files=("rxsci/operators/group_by.py", "rxsci/state/memory_store.py", "rxsci/state/store.py",
                                            "rxsci/operators/multiplex.py"), min_instances=1), named(grp.rule_fw1, heads=("group_by",)), grp.rule_fl1,
                 named(lv.rule_lv, only=("group_by_mux._group_by.on_subscribe",)), ms.ms_for_types("mapper", maps=True), ms.rule_tp1, *plumbing(*("rxsci/operators/group_by.py", "rxsci/operators/multiplex.py", "rxsci/state/with_store.py"))],
@@ -57,13 +57,13 @@ def rules_for(prop):
                                                        "rxsci/operators/first.py", "rxsci/operators/take.py", "rxsci/operators/last.py",
                                                        "rxsci/data/lag.py", "rxsci/data/pad.py", "rxsci/operators/start_with.py",
                                                        "rxsci/data/batch.py"), min_instances=1), ms.ms_for_types("int", "bool", "obj", maps=True), ms.rule_tp1],
-        "C11": [io.rule_framing, pr.rule_pr1, pr.rule_pr2, grp.rule_pr3, seq.rule_dp6, st.rule_st1, tm.rule_tm123, tm.rule_tm4, io.rule_fr3_prompt,
+        "C11": [io.rule_framing, pr.rule_pr1, pr.rule_pr2, grp.rule_pr3, seq.rule_dp6, st.rule_st1, tm.rule_tm123, tm.rule_tm4, io.rule_fr3_prompt, io.rule_codec,
                 *plumbing(*("rxsci/operators/scan.py", "rxsci/data/roll.py", "rxsci/data/split.py", "rxsci/data/time_split.py", "rxsci/operators/group_by.py",
-                                       "rxsci/operators/tee_map.py", "rxsci/data/batch.py", "rxsci/operators/multiplex.py"))],
-        "C12": [ms.ms_for_types("int", "float", "bool", "obj", maps=True), ms.rule_tp1, scan.rule_sd1, num.rule_nm1, ag.rule_ag4, named(scan.rule_pu1, files=("rxsci/math/sum.py", "rxsci/math/mean.py", "rxsci/math/min.py", "rxsci/math/max.py",
+                                       "rxsci/operators/tee_map.py", "rxsci/data/batch.py", "rxsci/operators/multiplex.py"), user_results=False)],
+        "C12": [ms.ms_for_types("int", "float", "bool", "obj", maps=True), ms.rule_tp1, scan.rule_sd1, scan.rule_sc1, num.rule_nm1, ag.rule_ag4, named(scan.rule_pu1, files=("rxsci/math/sum.py", "rxsci/math/mean.py", "rxsci/math/min.py", "rxsci/math/max.py",
                                                           "rxsci/math/variance.py", "rxsci/math/stddev.py", "rxsci/math/formal/variance.py",
                                                           "rxsci/math/formal/stddev.py", "rxsci/math/formal/__init__.py"))],
-        "C13": er.RULES + [mx.rule_wc2, st.rule_st8, mx.rule_ev1, error_paths(mx.rule_mx_flat), *plumbing(*("rxsci/error/ignore.py", "rxsci/error/map.py", "rxsci/error/router.py", "rxsci/operators/map.py",
+        "C13": er.RULES + [mx.rule_wc2, st.rule_st8, mx.rule_ev1, error_paths(mx.rule_mx_flat), scan.rule_sc1, *plumbing(*("rxsci/error/ignore.py", "rxsci/error/map.py", "rxsci/error/router.py", "rxsci/operators/map.py",
                                                                                    "rxsci/operators/starmap.py", "rxsci/operators/filter.py", "rxsci/operators/scan.py", "rxsci/operators/multiplex.py"))],
         "C14": ms.RULES,
         "C15": [io.rule_framing] + per_subscription(*FRAMING),
